@@ -12,6 +12,7 @@ TABLE = [  # (commit, checks expected to fire, what)
     ("8e2437cd", ["C03"], "N3LO ns loc 0.5"), ("0ecc585d", ["C03"], "scalar spline"), ("503e2e64", ["C03", "C05"], "pqq0_2_loc"),
     ("306b6661", ["C10"], "TMC h3"), ("54d698de", ["C10"], "TMC g1 k1"), ("34ee95b8", ["C10"], "TMC g1 2x"),
     ("c6c382ff+ab47799e", ["C16"], "check_kinematics (+XS use of it)"), ("ab47799e", ["C16"], "XS kinematics first"), ("f62435bb", ["C16"], "TMC map"), ("52cdf90f", ["C16"], "dispatch errors"),
+    ("25f7ee1f+0ecc585d", ["C03"], "heavy N3LO splines from finite rows (+ scalar return built on it)"), ("aba9f4d3", ["C16"], "replace_nans_with_0 name test"),
     ("628c815a", ["C18"], "fl_cc loc args"), ("93283357", ["C08"], "missing asy weights"), ("d8ec27c4", ["C08"], "FL Adler"), ("dd5ce457", ["C01"], "threshold kink break point"),
 ]
 tier = sys.argv[1] if len(sys.argv) > 1 else "quick"
